@@ -461,7 +461,7 @@ def c09(tier):
     import cli
     build(("cli",))
     texts = seed_texts(Q(tier, 30, 300))
-    scen = [{"text": t, "file_eol": fe, "option": op} for i, t in enumerate(texts) for (fe, op) in (("lf", "crlf"), ("crlf", "lf"), ("lf", "lf"))[i % 2:][:2]]
+    scen = [{"text": t, "file_eol": fe, "option": op} for i, t in enumerate(texts) for (fe, op) in (("lf", "crlf"), ("crlf", "lf"), ("lf", "lf"), ("crlf", "crlf"), ("lf", "crlf"))[i % 3:][:3]]
     res = cli.run_scenarios(cli.run_eol_scenario, scen)
     ran = 0
     for sc, (problems, skipped) in zip(scen, res):
@@ -475,7 +475,7 @@ def c09(tier):
     c.extra["cli_scenarios"] = ran
     return c.finish(
         rule="each input is formatted under lf and crlf (relation lecfg: results equal up to the terminator) and, when it has no CR and no verbatim line-spanning token, as LF and as CRLF text (relation lein: results identical); "
-             "every emitted break (between tokens, inside re-indented strings) must be the configured one")
+             "every emitted break (between tokens, inside re-indented strings) must be the configured one; through the command line: files, stdout and check mode on files whose terminators are / are not the configured ones")
 
 
 def c10(tier):
